@@ -143,6 +143,20 @@ def builtins_and_linear(ctx):
     from EasyFEA import Models
 
     for dim, elem in ((2, "TRI3"), (2, "QUAD4"), (2, "TRI6"), (3, "TETRA4")):
+        try:
+            _builtins_on(ctx, dim, elem)
+        except Exception as ex:
+            # an exception of the code under test on a form the specification admits is a verdict, not a machinery failure
+            import traceback
+
+            ctx.violation(f"builtin/raises/{elem}", f"a built-in comparison form on {elem} raises {type(ex).__name__}: {ex} | {traceback.format_exc()[-300:]}", {"elem": elem})
+
+
+def _builtins_on(ctx, dim, elem):
+    from EasyFEA.FEM import Field, BiLinearForm, LinearForm, MatrixType, Operators, ElemType
+    from EasyFEA import Models
+
+    if True:
         mesh = mesh_for(dim, elem)
         g = mesh.groupElem
         # scalar forms
